@@ -1,27 +1,66 @@
 import HypatiaModel.Query
 import HypatiaModel.Spec.KeywordSpec
+import HypatiaModel.Spec.FacetSpec
+import HypatiaModel.Spec.TextSpec
 
 /-!
 # hypatia.query over the index *models*
 
 `Query.lean` answers the leaves of a query tree at specification level.  Here the same `_apply`
-composition (`applyQL`, one definition) is run over a catalog of index **model states** – `Field.State Int`
-(C01's model of FieldIndex) and `Keyword.State Int` (C02's model of KeywordIndex/FacetIndex's keyword part) –
-the leaves being the models' own `applyEq/applyNotEq/applyGt/…/applyInRange/applyNotInRange/applyAny/
-applyNotAny/applyAll/applyNotAll`.  `Properties/C04.lean` (`c04_end_to_end`) proves that, for all histories
-of every index, the two catalogs give the same outcome on every tree.
+composition (`applyQL`, one definition) is run over a catalog of index **model states** of all four index
+kinds –
 
-A text index stays a specification-level table here (its model, C03, is not part of this composition).
+* `Field.State Int` (C01's model of FieldIndex),
+* `Keyword.State Int` (C02's model of KeywordIndex),
+* `Facet.State` (C13's model of FacetIndex: the inherited keyword state over facet names + the configured
+  facet set),
+* `Text.State` (C03's model of TextIndex: lexicon, postings, encoded documents)
+
+– the leaves being the models' own `applyEq/applyNotEq/applyGt/…/applyInRange/applyNotInRange/applyAny/
+applyNotAny/applyAll/applyNotAll/applyContains/applyNotContains`.  `Properties/C04.lean` (`c04_end_to_end`)
+proves that, for all histories of every index, the two catalogs give the same outcome on every tree.
+
+## values of facet and text leaves
+
+The query AST carries integer values.  A facet index and a text index come with a *dictionary*:
+`names : List Facet` (facet names, e.g. `a:b`) resp. `qs : List Str` (query **strings** in the text query
+language: words, phrases, globs, `AND/OR/NOT`, parentheses); the leaf value `x` stands for the `x`-th entry.
+At specification level the row of a document then lists the numbers of the dictionary entries it is listed
+under (facet: C13's `listed`) resp. satisfies (text: the parsed string read as boolean logic over the
+document's tokens, C03's `sat`), so that `Eq/Contains x` keeps its reading "x is in the document's row".
+A number outside the dictionary names the facet `[]` (no string has an empty segment list; no document is
+listed under it) resp. the empty query string (which the parser rejects) – `leavesListed` says a tree has
+no such text leaf.
 -/
 namespace Hyp.Query
 open Hyp
 
+/-- the `x`-th entry of a dictionary -/
+def nth {α : Type} (l : List α) (dflt : α) (x : Int) : α :=
+  if x < 0 then dflt else (l[x.toNat]?).getD dflt
+
 inductive IndexM where
   | field (s : Field.State Int)
   | keyword (s : Keyword.State Int)
-  | text (t : AMap Int (Option (List Int)))
+  | facet (names : List Facet.Facet) (s : Facet.State)
+  | text (cfg : Lex.Cfg) (sp : Nat → Bool) (qs : List QP.Str) (s : Text.State)
 
 abbrev MCatalog := List IndexM
+
+def textErr : Text.Err → Err
+  | .parseError => .parseError
+  | .queryError => .queryError
+  | .typeError => .typeError
+
+/-- `TextIndex.applyContains(qs[x])` (= `applyEq`).  Python's `None` (a query whose only word vanishes in
+the pipeline, outside C03's `admissible`) is what `len()` makes of it in `_negate`/`intersect`/`union`:
+`TypeError`. -/
+def textPos (cfg : Lex.Cfg) (sp : Nat → Bool) (qs : List QP.Str) (s : Text.State) (x : Int) :
+    Except Err IdSet :=
+  match Text.applyContains cfg sp s (nth qs [] x) with
+  | .error e => .error (textErr e)
+  | .ok none => .error .typeError
+  | .ok (some r) => .ok r
 
 /-- `index.applyX(value)` on the index models, positive comparators (same dispatch and error cases as
 `leafPos`) -/
@@ -43,7 +82,17 @@ def leafPosM (ix : IndexM) (c : Cmp) (v : Val) : Except Err IdSet :=
   | .keyword _, .lt, _ => .error .attributeError
   | .keyword _, .le, _ => .error .attributeError
   | .keyword _, .contains, _ => .error .attributeError
-  | .text t, c, v => leafPos (.text t) c v
+  | .facet ns s, .eq, .one x => .ok (Keyword.applyEq s.ks (nth ns [] x))
+  | .facet ns s, .any, v => .ok (Keyword.applyAny s.ks ((valList v).map (nth ns [])))
+  | .facet ns s, .all, v => .ok (Keyword.applyAll s.ks ((valList v).map (nth ns [])))
+  | .facet _ _, .gt, _ => .error .attributeError
+  | .facet _ _, .ge, _ => .error .attributeError
+  | .facet _ _, .lt, _ => .error .attributeError
+  | .facet _ _, .le, _ => .error .attributeError
+  | .facet _ _, .contains, _ => .error .attributeError
+  | .text cfg sp qs s, .contains, .one x => textPos cfg sp qs s x
+  | .text cfg sp qs s, .eq, .one x => textPos cfg sp qs s x
+  | .text _ _ _ _, _, _ => .error .attributeError
   | _, _, _ => .error .typeError
 
 /-- `BaseIndexMixin._negate` of the index -/
@@ -51,7 +100,8 @@ def negM (ix : IndexM) (pos : IdSet) : IdSet :=
   match ix with
   | .field s => Field.negate s pos
   | .keyword s => s.view.negate pos
-  | .text t => negOf (.text t) pos
+  | .facet _ s => s.ks.view.negate pos
+  | .text _ _ _ s => if pos.isEmpty then Text.docids s else LSet.diff (Text.docids s) pos
 
 /-- what `index.applyX(value)` returns for all twelve comparators -/
 def leafIndexM (ix : IndexM) (c : Cmp) (v : Val) : Except Err IdSet :=
@@ -70,6 +120,33 @@ theorem leafIndexM_keyword_notany (s : Keyword.State Int) (v : Val) :
     leafIndexM (.keyword s) .notany v = .ok (Keyword.applyNotAny s (valList v)) := rfl
 theorem leafIndexM_keyword_notall (s : Keyword.State Int) (v : Val) :
     leafIndexM (.keyword s) .notall v = .ok (Keyword.applyNotAll s (valList v)) := rfl
+theorem leafIndexM_facet_noteq (ns : List Facet.Facet) (s : Facet.State) (x : Int) :
+    leafIndexM (.facet ns s) .noteq (.one x) = .ok (Keyword.applyNotEq s.ks (nth ns [] x)) := rfl
+theorem leafIndexM_facet_notany (ns : List Facet.Facet) (s : Facet.State) (v : Val) :
+    leafIndexM (.facet ns s) .notany v = .ok (Keyword.applyNotAny s.ks ((valList v).map (nth ns []))) := rfl
+theorem leafIndexM_facet_notall (ns : List Facet.Facet) (s : Facet.State) (v : Val) :
+    leafIndexM (.facet ns s) .notall v = .ok (Keyword.applyNotAll s.ks ((valList v).map (nth ns []))) := rfl
+
+/-- `NotContains` / `NotEq` on a text index model is `TextIndex.applyNotContains` of the query string -/
+theorem leafIndexM_text_notcontains (cfg : Lex.Cfg) (sp : Nat → Bool) (qs : List QP.Str) (s : Text.State)
+    (x : Int) :
+    leafIndexM (.text cfg sp qs s) .notcontains (.one x) =
+      (match Text.applyNotContains cfg sp s (nth qs [] x) with
+       | .ok r => .ok r
+       | .error e => .error (textErr e)) := by
+  unfold leafIndexM leafPosM textPos Text.applyNotContains
+  simp only [Cmp.positive]
+  cases Text.applyContains cfg sp s (nth qs [] x) with
+  | error e => rfl
+  | ok o =>
+    cases o with
+    | none => rfl
+    | some r =>
+      simp only [Except.map, negM]
+      cases r <;> rfl
+
+theorem leafIndexM_text_noteq (cfg : Lex.Cfg) (sp : Nat → Bool) (qs : List QP.Str) (s : Text.State) (x : Int) :
+    leafIndexM (.text cfg sp qs s) .noteq (.one x) = leafIndexM (.text cfg sp qs s) .notcontains (.one x) := rfl
 
 def rangePosM (ix : IndexM) (lo hi : Int) (el eh : Bool) : Except Err IdSet :=
   match ix with
@@ -104,11 +181,13 @@ def applyQM (cat : MCatalog) (q : Q) : Except Err IdSet := applyQL (modelLeaves 
 
 /-! ## one history per index -/
 
-/-- the history of one index of the catalog -/
+/-- the history of one index of the catalog (a facet index with its configured facets `F0`, a text index with
+its lexicon configuration, back end and white-space predicate), plus the dictionary of leaf values -/
 inductive IndexH where
   | field (h : List (Field.Op Int))
   | keyword (h : List (Keyword.Op Int))
-  | text (t : AMap Int (Option (List Int)))
+  | facet (names F0 : List Facet.Facet) (h : List Facet.Op)
+  | text (cfg : Lex.Cfg) (okapi : Bool) (sp : Nat → Bool) (qs : List QP.Str) (h : List Text.Op)
 
 /-- the keyword specification table as a query-level table: the ids the index knows, each with its
 keyword list (`none` = indexed without a value).  A document indexed with an empty keyword list is not
@@ -116,19 +195,96 @@ known to the index (C02) and has no row. -/
 def kwTable (T : Keyword.Spec.Table Int) : AMap Int (Option (List Int)) :=
   (Keyword.Spec.known T).map (fun d => (d, (AMap.get T d).bind id))
 
+/-- the numbers of the dictionary entries that occur in `ks` -/
+def numsOf {K : Type} [DecidableEq K] (names : List K) (ks : List K) : List Int :=
+  ((List.range names.length).filter (fun i =>
+    match names[i]? with
+    | some k => decide (k ∈ ks)
+    | none => false)).map Int.ofNat
+
+/-- a facet index's specification table (docid ↦ the configured facets it is listed under, C13) as a
+query-level table: the row of a document holds the numbers of the names it is listed under -/
+def facetTable (names : List Facet.Facet) (T : Keyword.Spec.Table Facet.Facet) : AMap Int (Option (List Int)) :=
+  (Keyword.Spec.known T).map (fun d => (d, ((AMap.get T d).bind id).map (numsOf names)))
+
+/-- the numbers of the query strings that the parser accepts and a document with tokens `toks` satisfies
+(C03's `sat`) -/
+def satNums (cfg : Lex.Cfg) (sp : Nat → Bool) (qs : List QP.Str) (toks : List QP.Str) : List Int :=
+  ((List.range qs.length).filter (fun i =>
+    match qs[i]? with
+    | some q =>
+      (match QP.parseQuery (Text.lexOf cfg) sp q with
+       | .ok (t, _) => Text.Spec.sat t toks
+       | .error _ => false)
+    | none => false)).map Int.ofNat
+
+/-- a text index's document table (docid ↦ tokens, or no text; C03) as a query-level table: the row of a
+document with text holds the numbers of the query strings it satisfies -/
+def textTable (cfg : Lex.Cfg) (sp : Nat → Bool) (qs : List QP.Str) (T : Text.Spec.Table) :
+    AMap Int (Option (List Int)) :=
+  (AMap.keys T).map (fun d => (d, (Text.Spec.tokensOf T d).map (satNums cfg sp qs)))
+
 /-- the index models after the histories -/
 def modelIndex : IndexH → IndexM
   | .field h => .field (Field.run h)
   | .keyword h => .keyword (Keyword.run h)
-  | .text t => .text t
+  | .facet names F0 h => .facet names (Facet.run F0 h)
+  | .text cfg okapi sp qs h => .text cfg sp qs (Text.run cfg okapi h)
 
 /-- the specification tables after the same histories -/
 def specIndex : IndexH → IndexT
   | .field h => .field (Field.Spec.table h)
   | .keyword h => .keyword (kwTable (Keyword.Spec.table h))
-  | .text t => .text t
+  | .facet names F0 h =>
+    .keyword (facetTable names (Facet.Spec.kwTable (Keyword.dedup F0) (Facet.Spec.table h)))
+  | .text cfg _ sp qs h => .text (textTable cfg sp qs (Text.Spec.table cfg h))
 
 def modelCatalog (hs : List IndexH) : MCatalog := hs.map modelIndex
 def specCatalog (hs : List IndexH) : Catalog := hs.map specIndex
+
+/-! ## the hypotheses of the composition with C03 (decidable; the driver evaluates them) -/
+
+/-- the parser accepts the query string and the parsed tree is `admissible` (C03: finding D14 and leading
+glob characters excluded) -/
+def queryOK (cfg : Lex.Cfg) (sp : Nat → Bool) (q : QP.Str) : Bool :=
+  match QP.parseQuery (Text.lexOf cfg) sp q with
+  | .ok (t, _) => Text.Spec.admissible cfg t
+  | .error _ => false
+
+/-- C03's hypotheses for a text index of the catalog: fewer than 2^28 words in the lexicon (`Small`), every
+query string of the dictionary accepted and admissible.  Nothing is asked of the other index kinds. -/
+def histOK : IndexH → Bool
+  | .text cfg okapi sp qs h =>
+    decide ((Text.run cfg okapi h).base.lex.count < 0x10000000) && qs.all (queryOK cfg sp)
+  | _ => true
+
+def textCmp (c : Cmp) : Bool := decide (c ∈ [Cmp.eq, .noteq, .contains, .notcontains])
+
+/-- a `Contains/NotContains/Eq/NotEq` leaf on a text index names an entry of the dictionary -/
+def listedAt (h : IndexH) (c : Cmp) (v : Val) : Bool :=
+  match h, v with
+  | .text _ _ _ qs _, .one x => !textCmp c || (decide (0 ≤ x) && decide (x.toNat < qs.length))
+  | _, _ => true
+
+def listedLeaf (hs : List IndexH) (c : Cmp) (i : Nat) (v : Val) : Bool :=
+  match hs[i]? with
+  | some h => listedAt h c v
+  | none => true
+
+mutual
+/-- every comparator leaf of the tree satisfies `p` -/
+def leavesAll (p : Cmp → Nat → Val → Bool) : Q → Bool
+  | .cmp c i v => p c i v
+  | .range _ _ _ _ _ _ => true
+  | .and qs => leavesAllList p qs
+  | .or qs => leavesAllList p qs
+  | .not q => leavesAll p q
+def leavesAllList (p : Cmp → Nat → Val → Bool) : List Q → Bool
+  | [] => true
+  | q :: qs => leavesAll p q && leavesAllList p qs
+end
+
+/-- every text leaf of the tree names a query string of its index's dictionary -/
+def leavesListed (hs : List IndexH) (q : Q) : Bool := leavesAll (listedLeaf hs) q
 
 end Hyp.Query
